@@ -32,8 +32,15 @@ func (ex *Executor) execInstr(st *State, fr *Frame, ins ssa.Instruction) bool {
 		elem := x.Type().(*types.Pointer).Elem()
 		ref := st.newRef(x.Comment)
 		pv := Val{T: ref, Ty: x.Type()}
-		if _, isArr := elem.Underlying().(*types.Array); isArr {
+		if at, isArr := elem.Underlying().(*types.Array); isArr {
 			pv.P = &Ptr{Kind: PCell, Base: ref, Elem: elem}
+			// a new array holds zero values
+			et := at.Elem()
+			if _, nested := et.Underlying().(*types.Array); !nested {
+				name := elemNameT(et)
+				e := st.heapGet(name, arrayOf(arrayOf(sortOf(et))))
+				st.heapSet(name, Store(e, ref, ex.zeroArray(st, et)))
+			}
 		} else {
 			// zero-initialise
 			ex.store(st, pv, ex.zeroVal(elem))
@@ -181,8 +188,7 @@ func (ex *Executor) execInstr(st *State, fr *Frame, ins ssa.Instruction) bool {
 		srt := sortOf(elem)
 		name := elemNameT(elem)
 		e := st.heapGet(name, arrayOf(arrayOf(srt)))
-		zero := Sym("zeroarr."+string(srt), arrayOf(srt))
-		st.heapSet(name, Store(e, arr, zero))
+		st.heapSet(name, Store(e, arr, ex.zeroArray(st, elem)))
 		fr.vals[x] = ex.mkSlice(st, arr, Num(0), ln.T, cp.T, x.Type())
 		return true
 	case *ssa.MakeMap:
@@ -457,6 +463,28 @@ func (ex *Executor) pow2Term(st *State, k *Term) *Term {
 	st.assume(And(fs...))
 	st.assume(Gt(p, Num(0)))
 	return p
+}
+
+// zeroArray: the content of a freshly allocated array of elem: the constant array of elem's zero value.
+func (ex *Executor) zeroArray(st *State, elem types.Type) *Term {
+	switch {
+	case isStruct(elem):
+		k := "zerostruct:" + typeName(elem)
+		if st.zeroStructs == nil {
+			st.zeroStructs = map[string]*Term{}
+		}
+		z, ok := st.zeroStructs[k]
+		if !ok {
+			z = ex.asTerm(st, ex.zeroStruct(elem))
+			st.zeroStructs[k] = z
+		}
+		return ConstArr(z)
+	case isString(elem):
+		return ConstArr(strLit(""))
+	case sortOf(elem) == SBool:
+		return ConstArr(tFalse)
+	}
+	return ConstArr(Num(0))
 }
 
 // bitwise ops: with one constant operand they are decomposed per bit; otherwise uninterpreted.
